@@ -230,7 +230,7 @@ def case_compose_iterate(log, order):
     rp = (MOD, "replay_compose_iterate", {"order": order})
 
     def run():
-        jetmod.set_cap(7)
+        jetmod.set_cap(5)
         a0 = SR.var("a0")
         r = SR.var("r")
         assume(a0, ">0")
